@@ -176,6 +176,8 @@ class TyV(ZV):
             return self.kind_in(METAMC + DEP)
         if name == "__origin__":
             return self.kind_in(["Alias", "Equals", "FuncDep", "Product"])
+        if _dep_class_const(name) is not None:
+            return self.kind_in(DEP)
         raise OutOfSubset(f"hasattr(type, {name!r})")
 
     def py_getattr(self, I, name):
@@ -190,6 +192,17 @@ class TyV(ZV):
         if name == "parameters":
             I.require(self.kind_in(DEP), "attr.parameters.defined", exc="AttributeError")
             return ParamSeq(self)
+        consts = _dep_class_const(name)
+        if consts is not None:
+            # class-level constants of DependentType and its subclasses (exclusive_type, keyable_type, ...), read from the source
+            I.require(self.kind_in(DEP), f"attr.{name}.defined", exc="AttributeError")
+            base_v = consts.get("DependentType")
+            if isinstance(base_v, bool):
+                eq_v = consts.get("Equals", base_v)
+                pr_v = consts.get("ProductType", base_v)
+                fd_v = consts.get("FuncDependentType", base_v)
+                b = lambda v: z3.BoolVal(bool(v))
+                return ZV(z3.If(kind(self.t) == K["Equals"], b(eq_v), z3.If(kind(self.t) == K["Product"], b(pr_v), b(fd_v))), "bool")
         raise OutOfSubset(f"attribute {name} of a type")
 
     def py_isinstance(self, I, cls):
@@ -227,6 +240,22 @@ class TyV(ZV):
                 return I.truth(I.call_repo("dependent:FuncDependentType.__lt__", [self, other], {}))
             return I.truth(I.call_repo("dependent:DependentType.__lt__", [self, other], {}))
         return NotImplemented
+
+
+def _dep_class_const(name):
+    """Class-level constant `name = <literal>` in DependentType / Equals / ProductType / FuncDependentType (from the source)."""
+    from pyvc import source
+
+    m = source.module("dependent")
+    out = {}
+    for cn in ("DependentType", "ParametrizedDependentType", "FuncDependentType", "Equals", "ProductType"):
+        node = m.classes.get(cn)
+        if node is None:
+            continue
+        for stn in node.body:
+            if isinstance(stn, ast.Assign) and len(stn.targets) == 1 and isinstance(stn.targets[0], ast.Name) and stn.targets[0].id == name and isinstance(stn.value, ast.Constant):
+                out[cn] = stn.value.value
+    return out if "DependentType" in out else None
 
 
 class ParamSeq(SymSeq):
@@ -528,7 +557,7 @@ class TypesWorld(World):
 
     def make_set(self, I, elts):
         if isinstance(elts, list):
-            if all(isinstance(x, OrderV) for x in elts):
+            if elts and all(isinstance(x, OrderV) for x in elts):
                 return EnumSet({n: z3.Or(*[x.t == ORDER[n] for x in elts]) if elts else z3.BoolVal(False) for n in ORDER})
             return super().make_set(I, elts)
         if isinstance(elts, Stream):
@@ -536,6 +565,8 @@ class TypesWorld(World):
             probe = elts.probe(I)
             if isinstance(probe, OrderV):
                 return EnumSet({n: elts.exists(I, lambda e, i, n=n: e.t == ORDER[n]) for n in ORDER})
+            if isinstance(probe, TyV):
+                return SymSet(lambda t: elts.exists(I, lambda e, i: e.t == t), lambda t: TyV(t), TyS)
         raise OutOfSubset("set() of this stream")
 
     def sum_stream(self, I, seq):
@@ -550,6 +581,10 @@ class TypesWorld(World):
     def merge(self, I, c, a, b):
         if isinstance(a, OrderV) and isinstance(b, OrderV):
             return OrderV(z3.If(c, a.t, b.t))
+        if isinstance(a, ZV) and a.k == "bool" and isinstance(b, bool):
+            return ZV(z3.If(c, a.t, z3.BoolVal(b)), "bool")
+        if isinstance(b, ZV) and b.k == "bool" and isinstance(a, bool):
+            return ZV(z3.If(c, z3.BoolVal(a), b.t), "bool")
         return None
 
 
